@@ -70,7 +70,12 @@ def main():
     ap.add_argument("--only", default="")
     ap.add_argument("--dirs", nargs="*", default=None, help="mutation directories (with meta.json + patch.diff) instead of seeded/*")
     ap.add_argument("--prop", default="", help="property to check (default: meta.json property)")
+    ap.add_argument("--allprops", action="store_true", help="run EVERY property's check against each patch (harmless rewrites: any alarm is a false alarm)")
+    ap.add_argument("--scr", default="", help="scratch directory (default /tmp/vreg); use another one for a second run side by side")
     a = ap.parse_args()
+    global SCR
+    if a.scr:
+        SCR = a.scr
     dirs = a.dirs if a.dirs else sorted(glob.glob(os.path.join(ROOT, "seeded", "*")))
     q = queue.Queue()
     for d in dirs:
@@ -82,8 +87,14 @@ def main():
             meta = json.load(open(os.path.join(d, "meta.json")))
         except Exception:
             continue
+        if not os.path.exists(os.path.join(d, "patch.diff")):
+            continue
+        if a.allprops:
+            for c in json.load(open(os.path.join(ROOT, "MANIFEST.json")))["checks"]:
+                q.put((name, d, c["property_id"]))
+            continue
         prop = a.prop or meta.get("property")
-        if not prop or not os.path.exists(os.path.join(d, "patch.diff")):
+        if not prop:
             continue
         q.put((name, d, prop))
     n = q.qsize()
@@ -92,6 +103,12 @@ def main():
     ts = [threading.Thread(target=worker, args=(k, q, res, lock)) for k in range(min(a.workers, max(n, 1)))]
     for t in ts: t.start()
     for t in ts: t.join()
+    if a.allprops:
+        alarms = [r for r in res if r[2] != 0]
+        print("SUMMARY (harmless rewrites): %d runs, %d alarms" % (len(res), len(alarms)))
+        for r in alarms:
+            print("ALARM:", r[0], r[1], r[3][:300])
+        return 1 if alarms else 0
     missed = [r for r in res if r[2] == 0]
     concrete = [r for r in res if r[2] == 1 and "no-failing-input-found" not in r[3]]
     tie_only = [r for r in res if r[2] == 1 and "no-failing-input-found" in r[3]]
